@@ -13,31 +13,50 @@ PROP = {'drive': ['Names'], 'modules': ['SfntV.Props.C14'],
                        'C14_tables_are_standard',
                        'C14_tag_roundtrip_partial',
                        'C14_tag_string_roundtrip',
+                       'C14_tag_noext_deterministic',
+                       'C14_tag_noext_normal_form',
+                       'C14_tag_noext_back',
+                       'C14_tag_chinese',
+                       'C14_scriptlist_roundtrip',
                        'C14_choose_order_deterministic',
                        'C14_choose_default_is_best'],
  'areas': [('names', 2500, 60000)],
  'rule': 'distinct case lines (codec inputs, post name lists, name tables); non-trivial = a byte >= 128 / a '
          'non-empty string / at least one glyph name / at least one name record',
- 'partial': ['C14_tag_roundtrip_partial: x/text (language.Parse, Tag.Extension) is an abstract parameter assumed to '
-             'report the private-use subtags in lower case; checked against the real x/text by the streams '
-             'names.tagext/names.tagback/names.tagrt (every pair of the two tables in the thorough tier), not proved. '
-             'Only the branch of bcp47ToOtf for tags carrying the -x- extension is modelled; for tags without it the '
-             'code scans langBcp47/scriptBcp47 in map order (DESIGN section 9 #39: nl-Latn -> FLE/NLD, bn-Beng -> '
-             'beng/bng2 vary between calls) - probed, reported to C01/C08, not part of this theorem',
-             'script lists through (*gtab.Info).Encode / gtab.Read: not modelled; exercised on the real code by the D '
-             'streams names.slrt (Encode -> Read -> bcp47ToOtf gives back every language system) and names.slspec '
-             '(independent Lean reader of the ScriptList on the written bytes); every pair of the two tables in the '
-             'thorough tier',
+ 'partial': ['tag theorems are at string level with x/text abstract: C14_tag_roundtrip_partial assumes that '
+             'language.Parse + Tag.Extension report the private-use subtags in lower case; for tags without the '
+             '-x- extension the model receives what x/text reports about the tag (equal to language.Chinese / '
+             'SimplifiedChinese / TraditionalChinese?, Tag.Raw language, Tag.Script) from the Go side. Both are '
+             'checked against the real x/text by the streams names.tagext/tagback/tagrt (extension) and '
+             'names.tagnoext/tagnf/tagkeep (no extension), every pair of the two tables in the thorough tier, '
+             'not proved. Observed: x/text parses the plain tag pa-Zzzz (script DFLT, language PAN) as pa-Arab, so '
+             'that one pair cannot be written as a plain tag (the D predictions are emitted only when x/text reports '
+             'language and script as written; with the extension the pair round-trips)',
+             'C14_tag_noext_normal_form: a tag travelling WITHOUT the extension comes back as the pair itself '
+             'except where several OpenType tags share one BCP 47 value - then the smallest comes back (repair '
+             'a8e5c74; inherent): 10 scripts (bng2, deva, gujr, guru, knda, mlym, mymr, orya, telu, tml2) and 19 '
+             'languages (DIV, HYE0, INUK, IRT, KAR, KGE, KHS, KHV, MCR, MLR, MONT, NHC, NLD, ROM, SAY, TCR, TGL, TOD, '
+             'YCR); the 8 languages whose value is not a bare subtag (PGR, SYRE, SYRJ, SYRN, ZHH, ZHS, ZHT, ZHTM) '
+             'cannot travel without the extension (ZHS/ZHT come back through the zh-Hans/zh-Hant special cases). '
+             'With the extension (what otfToBCP47 itself produces) every pair comes back exactly',
+             'C14_scriptlist_roundtrip is the composition of the tag theorems with C08_scriptlist_roundtrip (model '
+             'SL.encode/SL.readSized of C08); C08 domain SL.InputOk is derived from KeyOk + 16-bit feature indices + '
+             'distinct resulting tag pairs (the key lists C08 regenerates equal this property tables: '
+             'c08_keys_same, kernel evaluation); remaining hypothesis: SL.encode returns bytes (panics beyond '
+             '16-bit offsets). Real code exercised by the D streams names.slrt / names.slspec (independent Lean '
+             'reader of the ScriptList)',
              'Tables.Choose: proved up to the external matcher (candidate order = function of the map, default = '
              'most preferred table); the x/text matcher is abstract, its answer (an index) is computed by the real '
              'matcher and passed to the model in stream names.choose; Choose panics (language.MustParse) on a map '
              'key that is not a BCP 47 tag - not modelled',
              'C14_post_roundtrip carries the guard 258 + (number of non-standard names) <= 65536: beyond it '
-             'post.Info.Encode wraps the 16-bit glyphNameIndex silently (known finding C14-post-index-wrap, '
-             'inside the stated domain of up to 65535 glyphs)',
+             'post.Info.Encode wraps the 16-bit glyphNameIndex silently (known finding C14-post-index-wrap, OPEN, '
+             'inside the stated domain of up to 65535 glyphs); proposed repair (encoder panics, as C08 did for the '
+             'same class): /verif/patches/C14/0001-post-encode-refuse-overflow.patch, tests pass unedited',
              'C14_name_roundtrip carries the guards 6 + 12*records <= 65535 and storage <= 65535 bytes: beyond '
              'them name.Info.Encode wraps the 16-bit storage offset / string offsets silently (known findings '
-             'C14-name-storage-wrap, C14-name-record-count-wrap; DESIGN section 9 #25)',
+             'C14-name-storage-wrap, C14-name-record-count-wrap, OPEN; DESIGN section 9 #25); proposed repair: '
+             '/verif/patches/C14/0002-name-encode-refuse-overflow.patch, tests pass unedited',
              'negations of the guarded-off cases are shown by replay on the real code, not by Lean witnesses '
              '(the witnesses need > 64 KiB of data in the kernel)'],
  'modelled_not_verified': ['Go string <-> []rune conversion (UTF-8) is the identity on lists of Unicode scalar '
@@ -57,7 +76,12 @@ PROP = {'drive': ['Names'], 'modules': ['SfntV.Props.C14'],
                  'in the Mac Roman repertoire, Windows strings valid Unicode, name ids 16-bit, Windows encoding '
                  'id 1 or 10 (10 only after the repair of name.Decode), directory and storage within 16-bit '
                  'fields',
-                 'post: at most 65535 glyphs, names of at most 255 bytes, 258 + custom names <= 65536']}
+                 'post: at most 65535 glyphs, names of at most 255 bytes, 258 + custom names <= 65536',
+                 'tags: script/language tags are keys of the regenerated scriptBcp47/langBcp47 (emitted sorted by '
+                 'tag; order, distinct keys and tag shapes checked in the kernel); plain tags: script a value of '
+                 'scriptBcp47, language a value of langBcp47 or und',
+                 'script lists: keys in KeyOk, feature indices 16-bit and no optional index 0xFFFF, distinct resulting '
+                 'tag pairs, SL.encode returning bytes (it panics beyond 16-bit offsets)']}
 
 LEVEL = {'text': 'Proof: (1) over the Mac Roman table regenerated from mac/encoding.go, Encode and Decode are '
          'mutually inverse on all byte strings / on the repertoire and injective (whole table by kernel '
@@ -69,14 +93,18 @@ LEVEL = {'text': 'Proof: (1) over the Mac Roman table regenerated from mac/encod
          'returns, for every platform, tag and name id, exactly the stored string, for every iteration order '
          'of the language maps, inside the 16-bit capacity of the format; (5) every script and language tag of '
          'the regenerated OpenType tag tables survives the -x-script-lang private-use extension (string level, '
-         'x/text abstract). Tied to the Go code by byte-exact '
+         'x/text abstract); a tag without the extension is mapped deterministically (smallest OpenType tag '
+         'with the value), comes back in an explicit normal form, and otfToBCP47(bcp47ToOtf t) keeps its '
+         'language and script; script lists round-trip tags-to-tags by composition with the C08 codec theorem. '
+         'Tied to the Go code by byte-exact '
          '(encoders) and value-exact (decoders, incl. mutated and truncated tables, lone surrogates, all 256 '
          'bytes, every language id) correspondence, and by independent Lean readers of the post and name '
          'tables evaluated on the bytes written by the real encoders.',
  'note': 'Trusted: Lean kernel + 3 standard axioms; hand-written models mirror the code as checked by sampled '
          'correspondence; Spec readers are my reading of the OpenType name/post chapters and the Apple tables. '
-         'Two repairs applied to /repo (name.Decode reads Windows encoding 10; gtab.otfToBCP47 strips the space '
-         'padding of short script tags); three open known findings '
-         '(silent 16-bit wraps in post and name encoders).',
+         'Repairs in /repo from this property: name.Decode reads Windows encoding 10; gtab.otfToBCP47 strips the '
+         'space padding of short script tags; bcp47ToOtf picks the smallest matching tag (was: map order); '
+         'name.Info.Encode lays out storage in language-id order (was: map order). Three open known findings '
+         '(silent 16-bit wraps in post and name encoders) with proposed patches under /verif/patches/C14/.',
  'technique': 'Lean 4 proofs about codec/table models, kernel evaluation over regenerated tables, byte- and '
               'value-exact differential correspondence, independent Lean readers on real encoder output'}
